@@ -205,7 +205,7 @@ class Check:
            Matched against known findings (all keys of finding['match']
            must equal the signature's)."""
         for f in self.findings:
-            if all(signature.get(k) == v for k, v in f['match'].items()):
+            if all(_match(signature.get(k), v) for k, v in f['match'].items()):
                 self.known_hit.setdefault(f['id'], [f, 0])[1] += 1
                 return False
         self.violations.append((signature, detail))
@@ -266,6 +266,13 @@ class Check:
                  self.states, self.traces, len(seen), len(self.known_hit),
                  time.time() - self.t0))
         return rc
+
+
+def _match(value, pattern):
+    """known-finding matcher: equality, or {"re": regex} (full match on str)"""
+    if isinstance(pattern, dict) and 're' in pattern:
+        return value is not None and re.fullmatch(pattern['re'], str(value)) is not None
+    return value == pattern
 
 
 def parallel_map(fn, items, procs=None, chunksize=None):
